@@ -53,8 +53,8 @@ def check_aminusb_predicate(ctx, rid):
 
     def mo(kind, aminusb):
         n = 6 if kind == "unrestricted" else 3
-        d = {"sym": sym_array("d", (3,)), "zeros": np.zeros(3), "zero-sum": np.array([0.0, 0.5, -0.5]), None: None}[aminusb]
-        return Rec(mo_cls, kind=kind, norba=3, norbb=3, occs=sym_array("o", (n,)) if aminusb in ("sym", None) else np.array([2.0, 1.0, 1.0]), coeffs=sym_array("c", (2, n)), energies=sym_array("e", (n,)), irreps=None, occs_aminusb=d)
+        d = {"sym": sym_array("d", (3,)), "zeros": np.zeros(3), "zero-sum": np.array([0.0, 0.5, -0.5]), "beta-majority": np.array([-1.0, -1.0, 0.0]), None: None}[aminusb]
+        return Rec(mo_cls, kind=kind, norba=3, norbb=3, occs=sym_array("o", (n,)) if aminusb in ("sym", None) else (np.array([1.0, 1.0, 0.0]) if aminusb == "beta-majority" else np.array([2.0, 1.0, 1.0])), coeffs=sym_array("c", (2, n)), energies=sym_array("e", (n,)), irreps=None, occs_aminusb=d)
 
     def call(data, allow):
         ev = AccessorEval(prog, mo_cls)
@@ -77,7 +77,7 @@ def check_aminusb_predicate(ctx, rid):
                 else:
                     ctx.violate(rid, f"{label} (allow_changes={allow}): expected the same object back, got {('another object' if isinstance(r, Rec) else r)!s} ({nw} warning(s))", pa, pa.node, construct=f"aminusb identity {label} allow={allow}")
         # conversion needed: any explicit occs_aminusb, also one that sums to zero or vanishes
-        for variant in ("sym", "zero-sum", "zeros"):
+        for variant in ("sym", "zero-sum", "zeros", "beta-majority"):
             data = Rec(iocls, mo=mo("restricted", variant))
             r, nw = call(data, False)
             if r == "PrepareDumpError":
@@ -86,7 +86,13 @@ def check_aminusb_predicate(ctx, rid):
                 ctx.violate(rid, f"restricted orbitals with an explicit occs_aminusb ({variant}) pass prepare_unrestricted_aminusb unconverted with allow_changes=False (got {'the same object' if r is data else r}): the writers then store only mo.occs and the alpha/beta occupations are lost", pa, pa.node, construct=f"aminusb {variant} not rejected")
             data = Rec(iocls, mo=mo("restricted", variant))
             src_mo = data.fields["mo"]
-            r, nw = call(data, True)
+            try:
+                r, nw = call(data, True)
+            except NotSymbolic as exc:
+                if variant == "sym":
+                    ctx.note(f"prepare_unrestricted_aminusb (symbolic occs_aminusb, allow_changes=True): not decidable on symbols ({exc}); decided on the constant patterns")
+                    continue
+                raise
             okc = isinstance(r, Rec) and r is not data and isinstance(r.fields.get("mo"), Rec) and r.fields["mo"].fields.get("kind") == "unrestricted" and nw == 1
             if okc:
                 ev = AccessorEval(prog, mo_cls)
